@@ -194,6 +194,26 @@ class Raised(Exception):
 
 
 _MISSING = object()
+_ACTIVE: list = []          # the interpreter used last (harness code reads public attributes of model objects through it)
+
+
+def pub(obj, name: str, default=None):
+    """A public attribute of a model object as the program itself would read it: the instance attribute, or - when the class
+    keeps it behind a property (backing field of another name) - what the property's getter returns."""
+    a = getattr(obj, "attrs", None)
+    if a is None:
+        return default
+    it = _ACTIVE[-1] if _ACTIVE else None
+    if it is not None and getattr(obj, "cls", None) in it.prog.classes:
+        pr = it._data_property(obj, name)
+        if pr is not None:
+            try:
+                if name in a:
+                    it.call(pr[1], [obj, a.pop(name)])
+                return it.call(pr[0], [obj])
+            except (Raised, Unsupported):
+                return default
+    return a.get(name, default)
 
 
 class _Return(Exception):
@@ -317,6 +337,7 @@ class Env:
 class Interp:
     def __init__(self, prog: Program, *, externals: Optional[Dict[str, Any]] = None, max_steps: int = 200000,
                  on_event: Optional[Callable] = None, interpret_program_functions: bool = True):
+        _ACTIVE[:] = [self]
         self.prog = prog
         self.ext = dict(externals or {})
         self.steps = 0
@@ -358,6 +379,8 @@ class Interp:
 
     def call(self, fi: FuncInfo, args: list, kwargs: Optional[dict] = None, *, closure_env: Optional[Env] = None):
         """Interpret function ``fi``.  Generators return the list of yielded values (yields are also events)."""
+        if not _ACTIVE or _ACTIVE[-1] is not self:
+            _ACTIVE[:] = [self]
         if fi.decorators and self._CACHE_DECOS & set(fi.decorators):
             store = self.__dict__.setdefault("_lru_store", {})
             import functools as _ft
@@ -566,7 +589,12 @@ class Interp:
             return ev
         hook = self.ext.get("new:" + name)
         if hook is not None:
-            return hook(*args, **kwargs)
+            try:
+                return hook(*args, **kwargs)
+            except (Raised, Unsupported, _Return, _Break, _Continue, StepLimit):
+                raise
+            except (ValueError, TypeError, OverflowError) as ex:      # the built-in base's own constructor rejects the argument
+                raise Raised(ExcVal(type(ex).__name__, ex.args), node)
         ci = self.prog.classes.get(name)
         if ci is None:
             raise Unsupported(f"construction of {name} is not modelled")
@@ -1072,7 +1100,7 @@ class Interp:
                     return r
             raise Unsupported(f"arithmetic on opaque value: {unparse(node)[:60]}")
         try:
-            if isinstance(op, ast.Pow) and isinstance(b, int) and abs(b) > 100000:
+            if isinstance(op, ast.Pow) and isinstance(b, int) and abs(b) > 10_000_000:
                 raise Unsupported("huge power")
             if isinstance(op, ast.LShift) and isinstance(b, int) and b > 1000000:
                 raise Unsupported("huge shift")
